@@ -361,6 +361,33 @@ def r7(ctx):
     C02.part_restart_rule(ctx, 'C15.R8', ['bs_sendCmdAck', 'bs_recvResAck'], 3)
 
 
+def r11(ctx):
+    ctx.rule('C15.R11', 'the automatic master-slave answer that BusHandler derives from an answered master-master command is '
+             'registered for the slave address of the master that command was addressed to (getSlaveAddress of its ZZ), for '
+             'any source, with the command\'s PB SB and ID', minimum=1)
+    fb = ctx.fb
+    fn = fb.fn('ebusd::BusHandler::notifyProtocolMessage')
+    ctx.touch(fn)
+    cmd = fn.P(1)
+    n = 0
+    for c in fn.all('CXXMemberCallExpr'):
+        v = fn.nodes[c]
+        if not (v.get('callee') or '').endswith('::setAnswer') or len(v.get('args', [])) < 6:
+            continue
+        n += 1
+        a = [fn.key(x) for x in v['args']]
+        # destination: getSlaveAddress(<local holding command[1]>)
+        dst_ok = False
+        import re
+        m = re.match(r'^ebusd::getSlaveAddress\((\w+)\)$', a[1])
+        if m:
+            inits = [fn.key(r2) for n2, d2, r2, o2, l2 in fn.assignments() if d2 and d2.split(':')[-1] == m.group(1) and r2 is not None]
+            dst_ok = bool(inits) and all(k in ('%s[#1]' % cmd,) for k in inits)
+        ok = fn.val(v['args'][0]) == 170 and dst_ok and a[2] == '%s[#2]' % cmd and a[3] == '%s[#3]' % cmd
+        ctx.ob('C15.R11', fn, c, ok, 'automatic answer registration', 'setAnswer(%s)' % ', '.join(x[:36] for x in a[:5]))
+    if n < 1:
+        raise AnalysisBroken('C15.R11: setAnswer call in BusHandler::notifyProtocolMessage not found')
+
 def run(ctx):
     r1(ctx)
     r2(ctx)
@@ -374,3 +401,4 @@ def run(ctx):
     ctx.borrow(c02.r2, {'C02.R2': 'C15.R10'},
                'the response and its CRC are sent through the same symbol selection and escape block as an own command: an '
                'unescaped A9/AA in the answer ends the transfer')
+    r11(ctx)
